@@ -67,7 +67,58 @@ def _m_strcpy(it, ctx, n, a):
     return d
 
 
-COPY_MODELS = {'strdup': _m_strdup, 'strndup': _m_strndup, 'strcpy': _m_strcpy}
+def _m_format(it, ctx, n, a):
+    """format(fmt, ...) of strings.c (a printf into a fresh buffer) for a concrete format made of literal characters, %%,
+    %s / %.*s (concrete strings), %c and %d %i %u %ld %lu (concrete integers, no flags / width).  Anything else - a
+    conversion not listed, a format or an operand that is not concrete, operands left over - is not interpreted."""
+    fmt = cstr(a[0]) if a else None
+    if fmt is None:
+        raise AnalysisBroken('format() with a format string that is not concrete')
+    out, k, j = [], 1, 0
+
+    def arg():
+        nonlocal k
+        if k >= len(a):
+            raise AnalysisBroken('format(): the format %r asks for more operands than the call has' % bytes(c & 255 for c in fmt))
+        k += 1
+        return it.settle(a[k - 1])
+    while j < len(fmt):
+        c = fmt[j]; j += 1
+        if c != 37:
+            out.append(c)
+            continue
+        spec = ''
+        while j < len(fmt):
+            spec += chr(fmt[j] & 255); j += 1
+            if spec[-1] in '%scdiuxXpfgeo':
+                break
+        if spec == '%':
+            out.append(37)
+        elif spec in ('s', '.*s'):
+            lim = arg() if spec == '.*s' else None
+            s = cstr(arg())
+            if s is None or (spec == '.*s' and (isinstance(lim, bool) or not isinstance(lim, int))):
+                raise AnalysisBroken('format(): the string for %%%s is not concrete' % spec)
+            out += s if lim is None or lim < 0 else s[:lim]
+        elif spec == 'c':
+            v = arg()
+            if isinstance(v, bool) or not isinstance(v, int) or not v & 255:
+                raise AnalysisBroken('format(): the character for %c is not concrete')
+            v &= 255
+            out.append(v - 256 if v >= 128 else v)
+        elif spec in ('d', 'i', 'u', 'ld', 'li', 'lu'):
+            v = arg()
+            if isinstance(v, bool) or not isinstance(v, int) or (spec[-1] == 'u' and v < 0):
+                raise AnalysisBroken('format(): the integer for %%%s is not concrete' % spec)
+            out += [ord(ch) for ch in str(v)]
+        else:
+            raise AnalysisBroken('format(): the conversion %%%s is not interpreted' % spec)
+    if k != len(a):
+        raise AnalysisBroken('format(): the format %r does not consume every operand of the call' % bytes(c & 255 for c in fmt))
+    return _Ref(ElemPlace(Arr(out + [0], 'formatted'), 0))
+
+
+COPY_MODELS = {'strdup': _m_strdup, 'strndup': _m_strndup, 'strcpy': _m_strcpy, 'format': _m_format}
 
 
 class ReadBack:
@@ -131,6 +182,9 @@ class Producer:
     def __init__(self, P):
         self.P = P
         self.u = P.unit(PU)
+        su = P.unit('strings.c')
+        if 'format' not in su.functions or not su.fn('format').calls({'vfprintf', 'vsnprintf', 'vsprintf', 'vasprintf'}):
+            raise AnalysisBroken('format() of strings.c is no longer a printf into a fresh buffer (the model of it would be a guess)')
         self.it = CMachine(P, self.u, {'models': dict(COPY_MODELS), 'cut': {'new_file': _cut_new_file}, 'noreturn': set(NORETURN) | {'tokenize'}, 'loop_limit': 0})
 
     def produced(self, fname, which, raw):
